@@ -42,7 +42,7 @@ var _ bufAPI = (*bytes.Buffer)(nil)
 var _ bufAPI = (*slog.PrintCtx)(nil)
 
 type scriptReader struct {
-	steps []int // >0: return that many bytes; 0: (0,nil); -1: negative count; -2: error; -3: EOF with data
+	steps []int // >0: return that many bytes; 0: (0,nil); -1: negative count; -2: error; -3: EOF with data; -4: data with a non-EOF error
 	i     int
 	fill  byte
 }
@@ -71,6 +71,15 @@ func (r *scriptReader) Read(p []byte) (int, error) {
 		return -1, nil
 	case s == -2:
 		return 0, errScript
+	case s == -4: // data together with a non-EOF error, which the io.Reader contract allows
+		n := 5
+		if n > len(p) {
+			n = len(p)
+		}
+		for j := 0; j < n; j++ {
+			p[j] = 'x'
+		}
+		return n, errScript
 	default:
 		n := 3
 		if n > len(p) {
@@ -270,7 +279,7 @@ func c19diff(c *Ctx) {
 			case 12:
 				var steps []int
 				for i := r.Intn(5); i >= 0; i-- {
-					steps = append(steps, gen.Pick(r, []int{1, 5, 100, 511, 512, 513, 2000, 0, 0, -1, -2, -3}))
+					steps = append(steps, gen.Pick(r, []int{1, 5, 100, 511, 512, 513, 2000, 0, 0, -1, -2, -3, -4, -4}))
 				}
 				fill := byte(r.Intn(200))
 				name = fmt.Sprintf("ReadFrom(reader script %v)", steps)
